@@ -30,7 +30,7 @@ CONSUME_OPT = TOK + "consume_optional"
 ENTRIES = [
     "delta::lexer::lex", "delta::parser::parse", LT + "Tokens::errors",
     PT + "ParseTree::errors", PT + "ParseTree::build_header",
-    PT + "parse_tree_xml::as_xml", LT + "Tokens::as_xml",
+    PT + "parse_tree_xml::{ParseTree}::as_xml", LT + "Tokens::as_xml",
     "<delta::parser::tokens::TokensWithReservation<'a, 'b> as std::ops::Drop>::drop",
 ]
 
@@ -421,7 +421,7 @@ def r7_inventory(run, F):
 def r8_recursion(run, F):
     g, R = parser_region(F)
     g2 = mirq.callgraph(F.lib)
-    Rx = set(r for r in mirq.reachable_fns(g2, [PT + "parse_tree_xml::as_xml"]) if r in F.lib.bodies)
+    Rx = set(r for r in mirq.reachable_fns(g2, [PT + "parse_tree_xml::{ParseTree}::as_xml"]) if r in F.lib.bodies)
     nodes = R | Rx
     comps = [c for c in mirq.sccs(g2, nodes) if len(c) > 1 or c[0] in g2.get(c[0], ())]
     run.note_analysed("R8 recursion SCCs", len(comps))
@@ -599,7 +599,7 @@ def r12_protocol(run, F):
         need = {
             "delta::parser::parse": LT + "Tokens::errors",
             PT + "ParseTree::build_header": PT + "ParseTree::errors",
-            PT + "parse_tree_xml::as_xml": PT + "ParseTree::errors",
+            PT + "parse_tree_xml::{ParseTree}::as_xml": PT + "ParseTree::errors",
         }
         for i, t in cfg.calls():
             c = mirq.call_target(t)
